@@ -74,6 +74,9 @@ def run_case(case):
                 elif not st_["srv_done"] and not sock.closed:
                     if op == "srv_data":
                         peer.deliver(rm.encode_frame(1, rm.TEXT if stp[1] else rm.BINARY, b"s%d" % i))
+                    elif op == "srv_burst":
+                        # several frames in ONE segment: whatever the client has not consumed when it closes must not be returned afterwards
+                        peer.deliver(b"".join(rm.encode_frame(1, rm.TEXT, b"b%d-%d" % (i, k)) for k in range(stp[1])))
                     elif op == "srv_ping":
                         peer.deliver(rm.encode_frame(1, rm.PING, b"pg"))
                     elif op == "srv_close":
@@ -241,6 +244,7 @@ step = st.one_of(
     st.tuples(st.just("shutdown")),
     st.tuples(st.just("srv_data"), st.booleans()),
     st.tuples(st.just("srv_ping")),
+    st.tuples(st.just("srv_burst"), st.sampled_from([2, 3, 5])),
     st.tuples(st.just("srv_close"), st.sampled_from([1000, 1001, 4000]), st.sampled_from([b"", b"srv"])),
     st.tuples(st.just("srv_eof")),
     st.tuples(st.just("wait"), st.sampled_from([0.1, 0.7, 2.0])),
@@ -258,7 +262,7 @@ def cases(max_steps):
 ALPHABET = [
     ["send", "hi"], ["recv"], ["recv_data_frame"], ["close", 1000, b"", 1], ["close", 3000, b"bye", 0.5], ["send_close", 1001, b"going"],
     ["shutdown"], ["srv_close", 1000, b""], ["srv_eof"], ["srv_data", True], ["ping", b"p"], ["close", 65536, b"", 1],
-    ["recv_frame"], ["fault_write", 3],
+    ["recv_frame"], ["fault_write", 3], ["srv_burst", 3],
 ]
 POLICIES = [{"close": ["reply", 0.0]}, {"close": ["never"]}, {"close": ["reply", 0.4], "chatty": [0.2, 6]}]
 
@@ -287,6 +291,6 @@ def run_job(job, coll):
     if job["kind"] == "enum":
         for c in enum_histories(job["len"], job["shard"], job["of"]):
             coll.check(c, run_case)
-        coll.exhaustive[f"all histories of length <= {job['len']} over a 14-operation alphabet (server policy rotating)"] = True
+        coll.exhaustive[f"all histories of length <= {job['len']} over a 15-operation alphabet (server policy rotating)"] = True
     else:
         hyp_run(coll, cases(job["steps"]), run_case, job["seed"], job["n"])
